@@ -30,11 +30,14 @@ def specs(tier):
                                 levels.append({"pre": own, "post": post, "snap": snap, "inv": inv, "defines": True})
                                 # alternate style/err deterministically so that every combination of
                                 # (style, err) meets every kind
-                                idx = len(out)
-                                style = ("def", "lambda")[idx % 2]
-                                err = ("default", "cls", "fac", "inst")[(idx // 2) % 4]
-                                out.append({"kind": kind, "is_async": is_async, "dbc": dbc, "levels": levels,
-                                            "style": style, "err": err})
+                                for foreign in (None, "top", "mid", "bottom"):
+                                    if foreign and (inv or (post, snap) != (1, 0)):
+                                        continue  # foreign functools.wraps decorators: on the plain +post shape only
+                                    idx = len(out)
+                                    style = ("def", "lambda")[idx % 2]
+                                    err = ("default", "cls", "fac", "inst")[(idx // 2) % 4]
+                                    out.append({"kind": kind, "is_async": is_async, "dbc": dbc, "levels": levels,
+                                                "style": style, "err": err, "foreign": foreign})
     return out
 
 
@@ -45,7 +48,7 @@ def features(spec, shape):
         "post": "/".join(str(lv["post"]) for lv in spec["levels"]),
         "snap": "/".join(str(lv["snap"]) for lv in spec["levels"]),
         "inv": "/".join(str(lv["inv"]) for lv in spec["levels"]),
-        "style": spec["style"], "err": spec["err"], "shape": shape,
+        "style": spec["style"], "err": spec["err"], "shape": shape, "foreign": spec.get("foreign"),
     }
 
 
